@@ -342,7 +342,7 @@ def combine1fiber(inloglam, objflux, newloglam, objivar=None, verbose=False,
     # Grow regions where 3 or more pixels are rejected together ???
     #
     foo = smooth(newivar, 3)
-    badregion = np.absolute(foo) < EPS
+    badregion = np.absolute(foo) < EPS * np.absolute(newivar).max()
     # badregion = foo == 0.0
     if badregion.any():
         warn('Growing bad pixel region, {0:d} pixels found.'.format(badregion.sum()),
